@@ -783,7 +783,8 @@ theorem formatGeneral_isSome (P bits : Nat) (up alt : Bool) (hP : 1 ≤ P) (hP' 
     (formatGeneral P bits up alt).isSome = true := by
   have h1 : fmtArgOk (P - 1 + 1) = true := by simp [fmtArgOk]; omega
   have h2 : fmtArgOk (P + 1) = true := by simp [fmtArgOk]; omega
-  simp only [formatGeneral, rustExp, rustFixed, h1, h2, if_true]
+  have hmax : max P 1 = P := Nat.max_eq_left hP
+  simp only [formatGeneral, hmax, rustExp, rustFixed, h1, h2, if_true]
   split
   · rfl
   · split
@@ -858,7 +859,8 @@ theorem floatBody_eq (spec : Spec) (bits : Nat) (k : FloatKind) (up : Bool)
     have hP1 : 1 ≤ P ∧ P ≤ 65530 := by subst hP; split <;> omega
     have h1 : fmtArgOk (P - 1 + 1) = true := by simp [fmtArgOk]; omega
     have h2 : fmtArgOk (P + 1) = true := by simp [fmtArgOk]; omega
-    simp only [formatGeneral, rustExp, rustFixed, h1, h2, if_true, hnan, hinf, pyFloatBody, sci, hP]
+    have hmax : max P 1 = P := Nat.max_eq_left hP1.1
+    simp only [formatGeneral, hmax, rustExp, rustFixed, h1, h2, if_true, hnan, hinf, pyFloatBody, sci, hP]
     simp only [Bool.false_eq_true, if_false]
     generalize hx : PV.Dec.toExpL (bits % 2 ^ 63) (P - 1) = mx at hl ⊢
     obtain ⟨m, x⟩ := mx
